@@ -1649,8 +1649,13 @@ class Engine:
             if m and m.group(1) in self.prog.adts and self.prog.bodies[callee].span.get('exp'):
                 # #[derive(Clone)] on a crate-local type: field-wise clone = copy of the abstract value
                 v = args[0]
+                lastref = None
                 while isinstance(v, RefV):
+                    lastref = v
                     v = self.read(st, v.path)
+                if isinstance(v, StructV) and v.prov is None and lastref is not None and lastref.path[1] and lastref.path[1][-1][0] == 'e':
+                    # a copy of an element of a collection remembers which element it was taken from
+                    v = StructV(v.ty, v.fields, prov=('elem-clone', lastref.path[0], lastref.path[1]))
                 self.visited_blocks.setdefault(callee, set()).update(range(len(self.prog.bodies[callee].blocks)))
                 results = [(st, v)]
             elif self.contract is not None and self.contract(callee, fr.func):
